@@ -260,3 +260,17 @@ Theorem C15_builder_request_url_partial : forall scheme netloc R P items,
         utf8_decode (unq_bytes (qr ++ 47 :: qp)) = Some (R ++ 47 :: lstrip_char 47 P)).
 Proof. exact builder_request_url. Qed.
 Print Assumptions C15_builder_request_url_partial.
+
+(* EnvironBuilder.from_environ (Client.open(environ), redirect following): decoding PATH_INFO /
+   SCRIPT_NAME / QUERY_STRING with the dance and encoding them again is the identity on every
+   string the encoding dance produces, and in general the rebuilt string is read by the request
+   exactly as the original one *)
+Theorem C15_from_environ_identity : forall x, valid_text x = true ->
+  from_environ_string (wsgi_encoding_dance x) = Some (wsgi_encoding_dance x).
+Proof. exact from_environ_identity. Qed.
+Print Assumptions C15_from_environ_identity.
+
+Theorem C15_from_environ_same_reading : forall s s', from_environ_string s = Some s' ->
+  wsgi_decoding_dance_replace s' = wsgi_decoding_dance_replace s.
+Proof. exact from_environ_same_reading. Qed.
+Print Assumptions C15_from_environ_same_reading.
